@@ -236,6 +236,9 @@ impl GGM {
   /// with the same prefix test that evaluation uses), the node depth and
   /// the node seed.
   pub fn verif_retained_nodes(&self) -> Vec<(Vec<u8>, usize, Vec<u8>)> {
+    let inputs: Vec<BitVec> = (0u16..256)
+      .map(|x| bvcast_u8_to_usize(&BitVec::<_, Lsb0>::from_slice(&[x as u8])))
+      .collect();
     self
       .key
       .prefixes
@@ -243,10 +246,7 @@ impl GGM {
       .map(|(pfx, seed)| {
         let covered: Vec<u8> = (0u16..256)
           .map(|x| x as u8)
-          .filter(|x| {
-            bvcast_u8_to_usize(&BitVec::<_, Lsb0>::from_slice(&[*x]))
-              .starts_with(&pfx.bits)
-          })
+          .filter(|x| inputs[*x as usize].starts_with(&pfx.bits))
           .collect();
         (covered, pfx.len(), seed.clone())
       })
@@ -256,11 +256,20 @@ impl GGM {
   /// The inputs recorded as punctured (those that match a recorded
   /// punctured prefix in full).
   pub fn verif_punctured(&self) -> Vec<u8> {
+    if self.key.punctured.is_empty() {
+      return Vec::new();
+    }
+    let inputs: Vec<BitVec> = (0u16..256)
+      .map(|x| bvcast_u8_to_usize(&BitVec::<_, Lsb0>::from_slice(&[x as u8])))
+      .collect();
     (0u16..256)
       .map(|x| x as u8)
       .filter(|x| {
-        let bv = bvcast_u8_to_usize(&BitVec::<_, Lsb0>::from_slice(&[*x]));
-        self.key.punctured.iter().any(|p| p.bits == bv)
+        self
+          .key
+          .punctured
+          .iter()
+          .any(|p| p.bits == inputs[*x as usize])
       })
       .collect()
   }
